@@ -119,6 +119,8 @@ type Contract struct {
 	SMT         []string          // raw SMT-LIB commands (recursive specification functions)
 	SMTFuns     map[string]string // function name -> result sort
 	Nullable    []string          // pointer-typed cells that may be nil at entry
+	Variant     string            // "variant <label>": one of several contracts of the same function (e.g. one per dynamic type of an interface argument)
+	DynTypes    map[string]string // "dyntype <param> <type expression>": the dynamic type of an interface-typed parameter in this variant
 	GhostParams []string
 	Lets        []GhostStmt               // entry parametrisation: lvalue = expr (substituted into the entry state)
 	Scenarios   []*Scenario               // alternative entry parametrisations (e.g. a point at infinity with arbitrary X, Y)
@@ -132,7 +134,7 @@ var reEns = regexp.MustCompile(`^ensures(?:\[([^\]]+)\])?\s+(.*)$`)
 var reInv = regexp.MustCompile(`^invariant(?:\[([^\]]+)\])?\s+(.*)$`)
 var reDer = regexp.MustCompile(`^derive(?:\[([^\]]+)\])?\s+(.*)$`)
 var reBack = regexp.MustCompile(`^backedge(?:\[([^\]]+)\])?\s+(.*)$`)
-var reCut = regexp.MustCompile(`^(?:after|before)\s+(store|def|call|block)\s*(\S*)\s+#(\d+)$`)
+var reCut = regexp.MustCompile(`^(?:after|before)\s+(store|def|call|block)\s*(\S*)\s+#(\d+|\*)$`)
 
 func splitTop(s, sep string) []string {
 	var out []string
@@ -457,6 +459,17 @@ func ParseContracts(file string) ([]*Contract, error) {
 				cur.SMTFuns = map[string]string{}
 			}
 			cur.SMTFuns[kv[0]] = kv[1]
+		case "variant":
+			cur.Variant = strings.TrimSpace(rest)
+		case "dyntype":
+			f := strings.SplitN(rest, " ", 2)
+			if len(f) != 2 {
+				return nil, fail(fmt.Errorf("dyntype <param> <type expression>"))
+			}
+			if cur.DynTypes == nil {
+				cur.DynTypes = map[string]string{}
+			}
+			cur.DynTypes[f[0]] = strings.TrimSpace(f[1])
 		case "nullable":
 			for _, v := range strings.Split(rest, ",") {
 				if v = strings.TrimSpace(v); v != "" {
@@ -526,7 +539,7 @@ func ParseContracts(file string) ([]*Contract, error) {
 					return nil, fail(fmt.Errorf("'before' anchors are only supported for def and call"))
 				}
 			}
-			c.Ord, _ = strconv.Atoi(m[3])
+			c.Ord, _ = strconv.Atoi(m[3]) // "#*" (every occurrence on the path) parses as 0
 			if i := strings.Index(c.Target, "["); i >= 0 && strings.HasSuffix(c.Target, "]") {
 				c.Index, _ = strconv.Atoi(c.Target[i+1 : len(c.Target)-1])
 				c.Target = c.Target[:i]
